@@ -2,8 +2,8 @@
    these definitions of /repo; tools/srcfacts.py regenerates their normal-form digests on every run (coq/Gen/Src_*.v).
    Statements only. *)
 From Coq Require Import List String.
-From ME Require Import Model.SrcExpected Gen.Src_metrics Gen.Src_retry Gen.Src_throttle Gen.Src_metrics_prom
-  Proofs.Src_ok_metrics Proofs.Src_ok_retry Proofs.Src_ok_throttle Proofs.Src_ok_metrics_prom.
+From ME Require Import Model.SrcExpected Gen.Src_metrics Gen.Src_retry Gen.Src_throttle Gen.Src_metrics_prom Gen.Src_poll Gen.Src_timeout Gen.Src_map Gen.Src_flat_map Gen.Src_cos Gen.Src_sync Gen.Src_common
+  Proofs.Src_ok_metrics Proofs.Src_ok_retry Proofs.Src_ok_throttle Proofs.Src_ok_metrics_prom Proofs.Src_ok_poll Proofs.Src_ok_timeout Proofs.Src_ok_map Proofs.Src_ok_flat_map Proofs.Src_ok_cos Proofs.Src_ok_sync Proofs.Src_ok_common.
 
 (* more_executors/_impl/metrics/__init__.py *)
 Theorem c20_source_metrics : Src_metrics.facts = expected_metrics.
@@ -17,8 +17,36 @@ Proof. exact src_throttle_ok. Qed.
 (* more_executors/_impl/metrics/prometheus.py *)
 Theorem c20_source_metrics_prom : Src_metrics_prom.facts = expected_metrics_prom.
 Proof. exact src_metrics_prom_ok. Qed.
+(* more_executors/_impl/poll.py *)
+Theorem c20_source_poll : Src_poll.facts = expected_poll.
+Proof. exact src_poll_ok. Qed.
+(* more_executors/_impl/timeout.py *)
+Theorem c20_source_timeout : Src_timeout.facts = expected_timeout.
+Proof. exact src_timeout_ok. Qed.
+(* more_executors/_impl/map.py *)
+Theorem c20_source_map : Src_map.facts = expected_map.
+Proof. exact src_map_ok. Qed.
+(* more_executors/_impl/flat_map.py *)
+Theorem c20_source_flat_map : Src_flat_map.facts = expected_flat_map.
+Proof. exact src_flat_map_ok. Qed.
+(* more_executors/_impl/cancel_on_shutdown.py *)
+Theorem c20_source_cos : Src_cos.facts = expected_cos.
+Proof. exact src_cos_ok. Qed.
+(* more_executors/_impl/sync.py *)
+Theorem c20_source_sync : Src_sync.facts = expected_sync.
+Proof. exact src_sync_ok. Qed.
+(* more_executors/_impl/common.py *)
+Theorem c20_source_common : Src_common.facts = expected_common.
+Proof. exact src_common_ok. Qed.
 
 Print Assumptions c20_source_metrics.
 Print Assumptions c20_source_retry.
 Print Assumptions c20_source_throttle.
 Print Assumptions c20_source_metrics_prom.
+Print Assumptions c20_source_poll.
+Print Assumptions c20_source_timeout.
+Print Assumptions c20_source_map.
+Print Assumptions c20_source_flat_map.
+Print Assumptions c20_source_cos.
+Print Assumptions c20_source_sync.
+Print Assumptions c20_source_common.
